@@ -26,4 +26,4 @@ Lemma fully_init_map_Some {B} (l : list B) : fully_init (map Some l).
 Proof. induction l; constructor; [discriminate | assumption]. Qed.
 
 (** std's [iter.collect::<Vec<_>>()] of the items a chain yields is the list of items *)
-Definition std_collect (items : list Z) : list Z := items.
+Definition std_collect {A} (items : list A) : list A := items.
